@@ -26,6 +26,7 @@ import (
 	"strings"
 	"sync"
 	"sync/atomic"
+	"syscall"
 	"testing"
 	"time"
 
@@ -745,6 +746,29 @@ func TestVerifX05MirrorReplay(t *testing.T) {
 
 // ---------------------------------------------------------------- trace validation over the real network
 
+// x05DeadAddr reserves a loopback TCP port by binding a socket that never listens: connecting to it is refused, and no
+// other process on this (busy) machine can start a server on it meanwhile.
+func x05DeadAddr(t testing.TB) (string, func()) {
+	fd, err := syscall.Socket(syscall.AF_INET, syscall.SOCK_STREAM, 0)
+	if err != nil {
+		t.Fatalf("x05: socket: %v", err)
+	}
+	if err = syscall.Bind(fd, &syscall.SockaddrInet4{Port: 0, Addr: [4]byte{127, 0, 0, 1}}); err != nil {
+		t.Fatalf("x05: bind: %v", err)
+	}
+	sa, err := syscall.Getsockname(fd)
+	if err != nil {
+		t.Fatalf("x05: getsockname: %v", err)
+	}
+	port := sa.(*syscall.SockaddrInet4).Port
+	// make sure the reading "refused" is right before relying on it
+	if c, err := net.DialTimeout("tcp", fmt.Sprintf("127.0.0.1:%d", port), 5*time.Second); err == nil {
+		c.Close()
+		t.Fatalf("x05: reserved port %d accepts connections", port)
+	}
+	return fmt.Sprintf("http://127.0.0.1:%d", port), func() { syscall.Close(fd) }
+}
+
 type x05TVReq struct {
 	id     int
 	orig   vx.M
@@ -813,10 +837,9 @@ func TestVerifX05MirrorTV(t *testing.T) {
 		}
 	}))
 	defer mirSrv.Close()
-	// a port nobody listens on
-	l, _ := net.Listen("tcp", "127.0.0.1:0")
-	dead := "http://" + l.Addr().String()
-	l.Close()
+	// a port nobody listens on - and nobody else can take while the test runs: bound, never listening (connect is refused)
+	dead, freeDead := x05DeadAddr(t)
+	defer freeDead()
 
 	type pk struct{ filter, main, mir string }
 	proxies := map[pk]*Proxy{}
